@@ -564,3 +564,14 @@ Example sound_example_arr_fin :
   in_frag ex_arr_fin = true /\ tc ex_arr_fin = Some TBool /\ div_safe I0 ex_arr_fin /\
   simplify_opt no_oracle ex_arr_fin = Some TTrue.
 Proof. split; [reflexivity|]. split; [reflexivity|]. split; [|reflexivity]. cbn. tauto. Qed.
+
+(* Real indices and Real elements *)
+Definition ex_arr_real : term :=
+  let a := T (OArrayValue TReal) [TRealC 0 1; TRealC 1 2; TRealC 3 4] in
+  T OAnd [T OEquals [T OSelect [a; TRealC 1 2]; TRealC 3 4];
+          T ONot [T OEquals [a; T OStore [T (OArrayValue TReal) [TRealC 0 1]; TRealC 1 3; TRealC 3 4]]];
+          T OEquals [T OStore [a; TRealC 1 2; TRealC 0 1]; T (OArrayValue TReal) [TRealC 0 1]]].
+Example sound_example_arr_real :
+  in_frag ex_arr_real = true /\ tc ex_arr_real = Some TBool /\ div_safe I0 ex_arr_real /\
+  simplify_opt no_oracle ex_arr_real = Some TTrue.
+Proof. split; [reflexivity|]. split; [reflexivity|]. split; [|reflexivity]. cbn. tauto. Qed.
